@@ -500,6 +500,12 @@ class InstanceState(interfaces.InspectionAttrInfo, Generic[_O]):
             elif pending and pending_to_transient is not None:
                 pending_to_transient(session, state)
 
+            if to_transient and deleted:
+                # as in make_transient(): without an identity the object is
+                # not "deleted" either; if it is added to a Session again it
+                # has to come out of the flush as persistent
+                del state._deleted
+
             state._strong_obj = None
 
     def _detach(self, session: Optional[Session] = None) -> None:
